@@ -148,3 +148,43 @@ Qed.
 Lemma td_down_dataless unz buf read2 nseq nfrag lastflag now_flag s6 :
   (read2 <= 2)%Z -> td_down unz buf read2 nseq nfrag lastflag now_flag s6 = (s6, [], now_flag).
 Proof. intros H. unfold td_down. assert (E : (2 <? read2)%Z = false) by lia. rewrite E. reflexivity. Qed.
+
+(* ---- the client's upstream acknowledgement rule (sender side of ProtoUp: SAck) --------------------- *)
+
+Lemma td_up_idle a b nf s7 : is_sending s7 = false -> td_up a b nf s7 = (s7, [], nf).
+Proof. intros H. unfold td_up. rewrite H. reflexivity. Qed.
+
+Lemma td_up_mismatch a b nf s7 :
+  ((a =? k_seqno (c_out s7))%N && (Z.of_N b =? k_fragment (c_out s7))%Z = false) -> td_up a b nf s7 = (s7, [], nf).
+Proof. intros H. unfold td_up. destruct (is_sending s7); [|reflexivity]. rewrite H. reflexivity. Qed.
+
+(* matching ack of the last chunk: the packet is complete, the sender becomes idle *)
+Lemma td_up_last nf s7 :
+  is_sending s7 = true -> (k_len (c_out s7) <= k_offset (c_out s7) + k_sentlen (c_out s7))%N ->
+  let r := td_up (k_seqno (c_out s7)) (Z.to_N (k_fragment (c_out s7))) nf s7 in
+  (0 <= k_fragment (c_out s7))%Z ->
+  is_sending (fst (fst r)) = false /\ k_seqno (c_out (fst (fst r))) = k_seqno (c_out s7) /\ snd (fst r) = [].
+Proof.
+  intros Hs Hl r Hf. unfold r, td_up. rewrite Hs.
+  assert (E : (k_seqno (c_out s7) =? k_seqno (c_out s7))%N && (Z.of_N (Z.to_N (k_fragment (c_out s7))) =? k_fragment (c_out s7))%Z = true) by lia.
+  rewrite E. cbn [k_len k_offset RecordSet.set].
+  assert (E2 : (k_len (c_out s7) <=? k_offset (c_out s7) + k_sentlen (c_out s7))%N = true) by lia.
+  cbn. rewrite E2.
+  match goal with |- context [if ?c then _ else _] => destruct c end; cbn; repeat split; reflexivity.
+Qed.
+
+(* matching ack of an inner chunk: offset advances by what was sent, the fragment number by one, and the
+   next chunk goes out at once *)
+Lemma td_up_next nf s7 :
+  is_sending s7 = true -> (k_offset (c_out s7) + k_sentlen (c_out s7) < k_len (c_out s7))%N -> (0 <= k_fragment (c_out s7))%Z ->
+  td_up (k_seqno (c_out s7)) (Z.to_N (k_fragment (c_out s7))) nf s7 =
+  (let st := s7 <| c_out := (c_out s7) <| k_offset := (k_offset (c_out s7) + k_sentlen (c_out s7))%N |>
+                                       <| k_fragment := schar_wrap (k_fragment (c_out s7) + 1) |> |> <| c_resent := 0%N |> in
+   let '(st2, out) := send_chunk st in (st2 <| c_ping_soon := 0%N |>, out, false)).
+Proof.
+  intros Hs Hl Hf. unfold td_up. rewrite Hs.
+  assert (E : (k_seqno (c_out s7) =? k_seqno (c_out s7))%N && (Z.of_N (Z.to_N (k_fragment (c_out s7))) =? k_fragment (c_out s7))%Z = true) by lia.
+  rewrite E. cbn [k_len k_offset RecordSet.set]. cbn.
+  assert (E2 : (k_len (c_out s7) <=? k_offset (c_out s7) + k_sentlen (c_out s7))%N = false) by lia.
+  rewrite E2. reflexivity.
+Qed.
